@@ -758,7 +758,9 @@ func (vc *VC) storeGhost(st *State, p *VPtr, bt types.Type, name string, gty typ
 	key, base := vc.ghostLoc(p, bt, name)
 	s := ghostSort(gty)
 	arr := vc.famGet(st, key, SArr(SRef, s))
+	restore := vc.withTouch(base)
 	vc.famSet(st, key, mkStore(arr, base, v))
+	restore()
 }
 
 func (env *SpecEnv) evalCall(e *SExpr) TV {
@@ -1078,6 +1080,9 @@ func (env *SpecEnv) callPure(pf *PureFunc, recv *TV, args []*SExpr) TV {
 			env.fail("opaque function %s needs a receiver", pf.Name)
 		}
 		key, srt := vc.predFamily(pf, sub)
+		if vc.usedPreds != nil {
+			vc.usedPreds[key] = true
+		}
 		t := mkSelect(vc.famGet(env.st, key, srt), env.scalar(*recv))
 		for _, p := range pf.Params {
 			t = mkSelect(t, sub.scalar(sub.vars[p.Name]))
